@@ -3,34 +3,43 @@
     use crate::compiler::duration::DurationItem;
 
     // C06: converting an amount from currency A to currency B is amount / rate(A) * rate(B)
-    // (V-real lemma money_algebra: == amount * rate(B)/rate(A), identity when A == B).
-    // K-slices of the two `match config.currency_rate.get(..)` initialisers of convert_currency,
-    // the rate lookups replaced by parameters (the real BTreeMap<Rc<CurrencyInfo>, f64> costs
+    // (V-real lemma algebra::convert: == amount * rate(B)/rate(A), identity when A == B).
+    // K-slice of the WHOLE BODY of convert_currency, compiled against stand-ins: a money value is
+    // (amount, currency record) like the real MoneyItem, a currency record has a code and a symbol,
+    // the rate table answers by currency identity (the real BTreeMap<Rc<CurrencyInfo>, f64> costs
     // > 8 GB under CBMC).  `self` is the TARGET currency, `left` the money being converted.
-    struct RateTable { left_rate: Option<f64>, self_rate: Option<f64> }
+    // (code and symbol are small integers here: comparing them is all code could do with them)
+    struct CurInfo { id: u8, code: u8, symbol: u8 }
+    struct RateTable { rates: [Option<f64>; 2] }
+    impl RateTable { fn get(&self, c: &Rc<CurInfo>) -> Option<&f64> { self.rates[c.id as usize].as_ref() } }
     struct Cfg { currency_rate: RateTable }
-    #[derive(Clone, Copy, PartialEq)] enum Cur { OfLeft, OfSelf }
-    impl RateTable { fn get(&self, c: &Cur) -> Option<&f64> { match c { Cur::OfLeft => self.left_rate.as_ref(), Cur::OfSelf => self.self_rate.as_ref() } } }
-    struct M { price: f64, cur: Cur }
-    impl M { fn get_currency(&self) -> Cur { self.cur } fn get_price(&self) -> f64 { self.price } }
-    trait SelfAlias { fn conv(&self, config: &Cfg, left: &M) -> f64; }
-    impl SelfAlias for M { fn conv(&self, config: &Cfg, left: &M) -> f64 {
-        let as_usd = /*@SLICE convert_currency.as_usd*/;
-        /*@SLICE convert_currency.result*/
-    } }
+    struct M(f64, Rc<CurInfo>);
+    impl M {
+        fn get_currency(&self) -> Rc<CurInfo> { self.1.clone() }
+        fn get_price(&self) -> f64 { self.0 }
+        fn convert_currency(&self, config: &Cfg, left: &M) -> f64 {
+            /*@SLICE convert_currency.body*/
+        }
+    }
 
     #[kani::proof]
     #[kani::stub(crate::tools::do_divition, crate::verif_support::div_probe)]
+    #[kani::unwind(4)]
     fn convert_currency_formula() {
         let amount: f64 = kani::any();
         let r_left: f64 = kani::any();
         let r_self: f64 = kani::any();
         let has_left: bool = kani::any();
         let has_self: bool = kani::any();
-        let cfg = Cfg { currency_rate: RateTable { left_rate: if has_left { Some(r_left) } else { None }, self_rate: if has_self { Some(r_self) } else { None } } };
-        let me = M { price: kani::any(), cur: Cur::OfSelf };
-        let left = M { price: amount, cur: Cur::OfLeft };
-        let got = me.conv(&cfg, &left);
+        // two different currencies which may or may not share their display symbol (usd/aud both use $)
+        let same_symbol: bool = kani::any();
+        let source = Rc::new(CurInfo { id: 0, code: 10, symbol: 1 });
+        let target = Rc::new(CurInfo { id: 1, code: 20, symbol: if same_symbol { 1 } else { 2 } });
+        let cfg = Cfg { currency_rate: RateTable { rates: [if has_left { Some(r_left) } else { None }, if has_self { Some(r_self) } else { None }] } };
+        let me = M(kani::any(), target.clone());
+        let left = M(amount, source.clone());
+        let got = me.convert_currency(&cfg, &left);
+        kani::cover!(same_symbol && has_left && has_self, "COVER:two_currencies_sharing_a_symbol");
         if !has_self {
             assert!(got.to_bits() == 0.0f64.to_bits(), "OBL:unknown_target_rate_gives_zero");
         } else if !has_left {
@@ -41,6 +50,7 @@
             assert!(div_calls() == 1 && div_was(0, amount, r_left), "OBL:divides_amount_by_source_rate");
             assert!(same_f64(got, div_call(0).2 * r_self), "OBL:amount_over_source_rate_times_target_rate");
         }
+        core::mem::forget(cfg); core::mem::forget(me); core::mem::forget(left); core::mem::forget(source); core::mem::forget(target);
     }
 
     // recording stand-in for the private callee convert_currency
